@@ -36,8 +36,36 @@ Matches(W, Z, q, e) ==
 
 Pr == [fn |-> cur.fn, fd |-> cur.fd, m |-> cur.m, n |-> cur.n]
 
+(* the assemble prior for a number of possible haplotypes U = 2^k far beyond 32 bits (loci with 30 - 60 SNVs):  *)
+(* the same weights as PriorWeights!AsmWeight / AsmNormaliser with U carried as a BigNat                        *)
+RECURSIVE BnPow2(_)
+BnPow2(k) == IF k = 0 THEN <<1>> ELSE BnMulSmall(BnPow2(k - 1), 2)
+RECURSIVE BnRising(_, _, _)
+BnRising(aB, DB, n) == IF n = 0 THEN <<1>> ELSE BnMul(BnRising(aB, DB, n - 1), BnAdd(aB, BnMulSmall(DB, n - 1)))
+RECURSIVE BnRisingAll(_, _, _, _)
+BnRisingAll(d, aB, DB, t) == IF t = 0 THEN <<1>> ELSE BnMul(BnRisingAll(d, aB, DB, t - 1), BnRising(aB, DB, d[t]))
+RECURSIVE BnPowN(_, _)
+BnPowN(b, n) == IF n = 0 THEN <<1>> ELSE BnMul(BnPowN(b, n - 1), b)
+RECURSIVE PermsBigFrom(_, _, _)
+PermsBigFrom(g, S, n) ==
+  IF S = {} THEN <<1>>
+  ELSE LET a == CHOOSE x \in S : TRUE
+           c == CountOf(g, a)
+       IN  BnMulSmall(PermsBigFrom(g, S \ {a}, n - c), Choose(n, c))
+PermsBig(g) == PermsBigFrom(g, {g[i] : i \in 1..Len(g)}, Len(g))
+RECURSIVE DosagePermsBigFrom(_, _, _)
+DosagePermsBigFrom(d, t, n) ==      \* multinomial coefficient as a product of binomials (no factorial above 32 bits)
+  IF t > Len(d) THEN <<1>> ELSE BnMulSmall(DosagePermsBigFrom(d, t + 1, n - d[t]), Choose(n, d[t]))
+DosagePermsBig(d) == DosagePermsBigFrom(d, 1, SeqSum(d))
+AsmWeightBig(d, UB, fn, fd) ==
+  IF fn = 0 THEN DosagePermsBig(d)
+  ELSE BnMul(BnRisingAll(d, BnFromNat(fd - fn), BnMulSmall(UB, fn), Len(d)), DosagePermsBig(d))
+AsmNormaliserBig(d, UB, fn, fd) ==
+  IF fn = 0 THEN BnPowN(UB, SeqSum(d))
+  ELSE BnRising(BnMulSmall(UB, fd - fn), BnMulSmall(UB, fn), SeqSum(d))
+
 WellFormedInstance(e) ==
-  /\ e.P \in 1..12 /\ e.K \in 1..64
+  /\ e.P \in 1..24 /\ e.K \in 1..64
   /\ IsPriorParam([fn |-> e.fn, fd |-> e.fd, m |-> e.m, n |-> e.n], e.K)
 
 GenotypeOK(g) == /\ Len(g) = cur.P
@@ -64,6 +92,16 @@ Verdict(e) ==
          ELSE IF SeqSum(e.d) # cur.P THEN "DosageSumsToPloidy"
          ELSE IF Matches(AsmWeight(e.d, e.U, cur.fn, cur.fd), AsmNormaliser(e.d, e.U, cur.fn, cur.fd), e.q, e.e)
               THEN "ok" ELSE "AssemblePriorIsFlatDM"
+    [] e.op = "genobig" ->   \* high (pooled) ploidies: the number of orderings of the genotype as a BigNat product of binomials
+         IF cur = <<>> THEN "NoInstance"
+         ELSE IF ~GenotypeOK(e.g) THEN "GenotypeOK"
+         ELSE IF Matches(BnMul(OrderedWeight(Pr, e.g), PermsBig(e.g)), Normaliser(Pr, cur.P), e.q, e.e) THEN "ok"
+         ELSE "GenotypePriorIsWOverZHighPloidy"
+    [] e.op = "asmbig" ->
+         IF cur = <<>> THEN "NoInstance"
+         ELSE IF SeqSum(e.d) # cur.P THEN "DosageSumsToPloidy"
+         ELSE IF Matches(AsmWeightBig(e.d, BnPow2(e.Uk), cur.fn, cur.fd), AsmNormaliserBig(e.d, BnPow2(e.Uk), cur.fn, cur.fd), e.q, e.e)
+              THEN "ok" ELSE "AssemblePriorIsFlatDMManySnvs"
     [] e.op = "end" ->
          IF cur = <<>> \/ cur.walk # 1 THEN "NoWalk"
          ELSE IF cnt # Choose(cur.K + cur.P - 1, cur.P) THEN "WalkVisitsEveryGenotype"
